@@ -94,3 +94,59 @@ def norm_queries(q, keep_anchor_for_multi=False):
             cif[f] = keep
     q["cycles_in_file"] = cif
     return q
+
+
+def keyed_queries(q):
+    """query snapshot keyed by what each answer is about, so that a difference can be attributed to names"""
+    k = {"goto": {}, "refs": {}, "available": {}, "unused": {}, "mismatches": {}, "cycles": {}}
+    for g in q.get("goto", []):
+        u = g["usage"]
+        k["goto"][f"{u[0]}:{u[1]}:{u[2]}:{u[4]}"] = g["target"]
+    for r in q.get("refs", []):
+        d = r["def"]
+        k["refs"][f"{d[0]}:{d[1]}:{d[2]}"] = r["refs"]
+    for f, lst in q.get("available", {}).items():
+        k["available"][f] = {e[0]: [e[1], e[2]] for e in lst}
+        if len(lst) != len(k["available"][f]):
+            k["available"][f]["<duplicate-names>"] = sorted(e[0] for e in lst)
+    for u in q.get("unused", []):
+        k["unused"][f"{u[0]}::{u[1]}"] = True
+    for f, lst in q.get("mismatches", {}).items():
+        for m in lst:
+            k["mismatches"][f"{m['fixture'][0]}:{m['fixture'][1]}:{m['fixture'][2]}->{m['dep'][2]}"] = [m["fscope"], m["dscope"], m["dep"]]
+    for c in q.get("cycles", []):
+        p = norm_cycle_path(c["path"])
+        k["cycles"][">".join(p)] = c["anchor"] if len(p) == 1 else None
+    return k
+
+
+def names_in_key(section, key):
+    if section == "goto":
+        return {key.rsplit(":", 1)[1]}
+    if section == "refs":
+        return {key.rsplit(":", 1)[1]}
+    if section == "unused":
+        return {key.rsplit("::", 1)[1]}
+    if section == "mismatches":
+        left, dep = key.rsplit("->", 1)
+        return {left.rsplit(":", 1)[1], dep}
+    if section == "cycles":
+        return set(key.split(">"))
+    return set()
+
+
+def keyed_diff(a, b):
+    """list of (section, key, names, va, vb)"""
+    out = []
+    for sec in a:
+        if sec == "available":
+            for f in sorted(set(a[sec]) | set(b[sec])):
+                da, db = a[sec].get(f, {}), b[sec].get(f, {})
+                for n in sorted(set(da) | set(db)):
+                    if da.get(n) != db.get(n):
+                        out.append((sec, f"{f}::{n}", {n}, da.get(n), db.get(n)))
+        else:
+            for key in sorted(set(a[sec]) | set(b[sec])):
+                if a[sec].get(key, "<absent>") != b[sec].get(key, "<absent>"):
+                    out.append((sec, key, names_in_key(sec, key), a[sec].get(key, "<absent>"), b[sec].get(key, "<absent>")))
+    return out
